@@ -495,6 +495,27 @@ m('norm2-operator-rewritten', 'NORM2', 'VisitUnaryCriteria', ('visit.go',
 		Value:  normValue,
 	}'''))
 
+m('nil3-import-null-element', 'NIL3', 'DB.ImportCollection', ('json.go',
+  '''		if doc == nil { // a null element
+			return errors.New("invalid document: null")
+		}
+''', ''''''))
+m('guard2-create-before-probe', 'GUARD2', 'DB.CreateCollectionByQuery', ('db.go',
+  '''	if !ok {
+		return ErrCollectionNotExist
+	}
+
+	if err := db.createCollection(tx, name); err != nil {
+		return err
+	}
+
+	docs := make([]*d.Document, 0)''', '''	_ = ok
+
+	if err := db.createCollection(tx, name); err != nil {
+		return err
+	}
+
+	docs := make([]*d.Document, 0)'''))
 # reverts of the fix: commits (rule and expected key from known_findings.json)
 ff = json.load(open(os.path.join(os.path.dirname(os.path.abspath(__file__)), '..', 'known_findings.json')))
 
